@@ -39,9 +39,9 @@ CHECKS["C19"] = {
     "level_note": "Trusts the reference model (documented absorption rule) and go-datastore's MapDatastore as the persistence substrate; keys always match the "
                   "prefix they are enqueued under (documented precondition). Crash points inside Persist are not asserted (the property does not define a partial persist).",
     "parts": [
-        {"part": "provide-queue", "pkg": Q, "test": "TestVerif_C19_ProvideQueue", "quick": 4000, "thorough": 60000},
+        {"part": "provide-queue", "pkg": Q, "test": "TestVerif_C19_ProvideQueue", "quick": 8000, "thorough": 60000},
         {"part": "provide-queue-gofuzz", "pkg": Q, "fuzz": "FuzzVerif_C19_ProvideQueue", "fuzz_seconds": 45, "quick": 0, "thorough": 0, "test": "FuzzVerif_C19_ProvideQueue"},
-        {"part": "reprovide-queue", "pkg": Q, "test": "TestVerif_C19_ReprovideQueue", "quick": 4000, "thorough": 60000},
+        {"part": "reprovide-queue", "pkg": Q, "test": "TestVerif_C19_ReprovideQueue", "quick": 8000, "thorough": 60000},
         {"part": "reprovide-queue-gofuzz", "pkg": Q, "fuzz": "FuzzVerif_C19_ReprovideQueue", "fuzz_seconds": 45, "quick": 0, "thorough": 0, "test": "FuzzVerif_C19_ReprovideQueue"},
     ],
 }
@@ -58,9 +58,9 @@ CHECKS["C20"] = {
     "level_note": "Crash model: per-datastore journal prefix containing everything up to the last Sync, atomic batch commits, immediate durable destroy; "
                   "torn writes and reordering of unsynced writes are not modelled. In-memory journaling datastore stands in for pebble/leveldb.",
     "parts": [
-        {"part": "history-crash", "pkg": KSP, "test": "TestVerif_C20_History", "quick": 1500, "thorough": 20000},
+        {"part": "history-crash", "pkg": KSP, "test": "TestVerif_C20_History", "quick": 3000, "thorough": 20000},
         {"part": "reset-faults", "pkg": KSP, "test": "TestVerif_C20_ResetFaults", "quick": 300, "thorough": 4000},
-        {"part": "reset-interleave", "pkg": KSP, "test": "TestVerif_C20_ResetInterleave", "quick": 600, "thorough": 8000},
+        {"part": "reset-interleave", "pkg": KSP, "test": "TestVerif_C20_ResetInterleave", "quick": 1200, "thorough": 8000},
     ],
 }
 
@@ -75,7 +75,7 @@ CHECKS["C05"] = {
     "level_note": "Interleavings are explored at datastore calls and lock acquisitions only; the test validator is a total order on (rank, junk); the in-memory journaling "
                   "datastore stands in for the real one; ValueStore.Put is driven with rec.Key == key as all callers do (the handler-level key check is exercised at DHT level).",
     "parts": [
-        {"part": "history", "pkg": REC, "test": "TestVerif_C05_History", "quick": 2000, "thorough": 30000},
+        {"part": "history", "pkg": REC, "test": "TestVerif_C05_History", "quick": 4000, "thorough": 30000},
         {"part": "interleave", "pkg": REC, "test": "TestVerif_C05_Interleave", "quick": 600, "thorough": 8000},
     ],
 }
@@ -90,7 +90,7 @@ CHECKS["C07"] = {
     "level_note": "The validity boundary itself is accepted either way; interleavings are explored at datastore calls and mutex acquisitions; the journaling in-memory datastore "
                   "(go-datastore NaiveQueryApply prefix semantics) stands in for the real one; the sweep is invoked directly (collectExpired) in the interleaving part.",
     "parts": [
-        {"part": "history", "pkg": REC, "test": "TestVerif_C07_History", "quick": 2000, "thorough": 30000},
+        {"part": "history", "pkg": REC, "test": "TestVerif_C07_History", "quick": 4000, "thorough": 30000},
         {"part": "interleave", "pkg": REC, "test": "TestVerif_C07_Interleave", "quick": 600, "thorough": 8000},
     ],
 }
@@ -105,8 +105,8 @@ CHECKS["C01"] = {
     "level_note": "The transport is a model (fake host and message sender honouring context cancellation, 10 s read and 60 s dial timeouts); peer ids are arbitrary multihashes; "
                   "the routing table library (go-libp2p-kbucket) is trusted for the seed selection that is observed, not predicted.",
     "parts": [
-        {"part": "adversarial", "pkg": ROOT, "test": "TestVerif_C01_Adversarial", "quick": 2000, "thorough": 40000},
-        {"part": "cancelled", "pkg": ROOT, "test": "TestVerif_C01_Cancelled", "quick": 1500, "thorough": 30000},
+        {"part": "adversarial", "pkg": ROOT, "test": "TestVerif_C01_Adversarial", "quick": 6000, "thorough": 40000},
+        {"part": "cancelled", "pkg": ROOT, "test": "TestVerif_C01_Cancelled", "quick": 4500, "thorough": 30000},
     ],
 }
 CHECKS["C02"] = {
@@ -117,8 +117,8 @@ CHECKS["C02"] = {
                   "everyone knows everyone); the adversarial scenarios of C01 are reused for the termination/contact clauses. Exploration: networks and arrival orders are sampled.",
     "level_note": "Same simulated transport as C01; 'has received answers from the beta nearest' is judged from processed-answer events cross-checked against the simulation log.",
     "parts": [
-        {"part": "convergence", "pkg": ROOT, "test": "TestVerif_C02_Convergence", "quick": 800, "thorough": 15000},
-        {"part": "contact", "pkg": ROOT, "test": "TestVerif_C02_Contact", "quick": 1500, "thorough": 30000},
+        {"part": "convergence", "pkg": ROOT, "test": "TestVerif_C02_Convergence", "quick": 1600, "thorough": 15000},
+        {"part": "contact", "pkg": ROOT, "test": "TestVerif_C02_Contact", "quick": 3000, "thorough": 30000},
     ],
 }
 
@@ -131,7 +131,7 @@ CHECKS["C03"] = {
                   "10 min after the return and after Close'. Exploration: scenarios are sampled.",
     "level_note": "Transport model honours context cancellation and its own timeouts (10 s read, 60 s dial, 30 s put); liveness only as bounded virtual time; FullRT and dual clients are exercised in their own checks (C16, C15).",
     "parts": [
-        {"part": "operations", "pkg": ROOT, "test": "TestVerif_C03_Operations", "quick": 2500, "thorough": 40000},
+        {"part": "operations", "pkg": ROOT, "test": "TestVerif_C03_Operations", "quick": 5000, "thorough": 40000},
     ],
 }
 
@@ -143,9 +143,9 @@ CHECKS["C04"] = {
                   "re-validated, the stream must be strictly improving and the final value at least as good as every valid value supplied before the stream ended. Exploration: scenarios are sampled.",
     "level_note": "Test validator = order on rank with ties between byte variants (Select keeps the first of equals) and an optional end-of-life under the virtual clock; parts: standard client, accelerated client (FullRT over a fake crawl), GetPublicKey with fixed non-inlined ECDSA keys; the dual client's GetValue preference is checked in C15.",
     "parts": [
-        {"part": "values", "pkg": ROOT, "test": "TestVerif_C04_Values", "quick": 2500, "thorough": 40000},
-        {"part": "fullrt", "pkg": "./fullrt/", "test": "TestVerif_C04_FullRT", "quick": 1200, "thorough": 20000},
-        {"part": "public-key", "pkg": ROOT, "test": "TestVerif_C04_PublicKey", "quick": 1500, "thorough": 25000},
+        {"part": "values", "pkg": ROOT, "test": "TestVerif_C04_Values", "quick": 5000, "thorough": 40000},
+        {"part": "fullrt", "pkg": "./fullrt/", "test": "TestVerif_C04_FullRT", "quick": 2400, "thorough": 20000},
+        {"part": "public-key", "pkg": ROOT, "test": "TestVerif_C04_PublicKey", "quick": 3000, "thorough": 25000},
     ],
 }
 
@@ -157,7 +157,8 @@ CHECKS["C06"] = {
                   "recipients and the payload of every write RPC in the simulation log with the lookup result and the filtered address set. Exploration: scenarios are sampled.",
     "level_note": "The lookup result R is recomputed from lookup events (validated against the simulation in C01); address classes are recognised by construction; FullRT bulk writes are covered by C16.",
     "parts": [
-        {"part": "writes", "pkg": ROOT, "test": "TestVerif_C06_Writes", "quick": 2500, "thorough": 40000},
+        {"part": "writes", "pkg": ROOT, "test": "TestVerif_C06_Writes", "quick": 5000, "thorough": 40000},
+        {"part": "fullrt", "pkg": "./fullrt/", "test": "TestVerif_C06_FullRT", "quick": 1500, "thorough": 20000},
     ],
 }
 
@@ -169,9 +170,9 @@ CHECKS["C08"] = {
                   "soundness, the count bound, the repeat rule, completeness for count 0 and that no request starts after the count was reached. Exploration: scenarios are sampled.",
     "level_note": "Three parts: the standard client, the accelerated client (FullRT over a fake crawl) and the dual client's merge of the WAN and LAN searches.",
     "parts": [
-        {"part": "find-providers", "pkg": ROOT, "test": "TestVerif_C08_FindProviders", "quick": 2500, "thorough": 40000},
-        {"part": "fullrt", "pkg": "./fullrt/", "test": "TestVerif_C08_FullRT", "quick": 1200, "thorough": 20000},
-        {"part": "dual-merge", "pkg": "./dual/", "test": "TestVerif_C08_DualMerge", "quick": 400, "thorough": 8000},
+        {"part": "find-providers", "pkg": ROOT, "test": "TestVerif_C08_FindProviders", "quick": 5000, "thorough": 40000},
+        {"part": "fullrt", "pkg": "./fullrt/", "test": "TestVerif_C08_FullRT", "quick": 2400, "thorough": 20000},
+        {"part": "dual-merge", "pkg": "./dual/", "test": "TestVerif_C08_DualMerge", "quick": 1200, "thorough": 8000},
     ],
 }
 
@@ -199,8 +200,8 @@ CHECKS["C10"] = {
     "parts": [
         {"part": "messenger", "pkg": PBP, "test": "TestVerif_C10_Messenger", "quick": 4000, "thorough": 60000},
         {"part": "messenger-gofuzz", "pkg": "./pb/", "fuzz": "FuzzVerif_C10_Messenger", "fuzz_seconds": 60, "quick": 0, "thorough": 0, "test": "FuzzVerif_C10_Messenger"},
-        {"part": "sender-bytes", "pkg": "./internal/net/", "test": "TestVerif_C10_SenderBytes", "quick": 1000, "thorough": 15000},
-        {"part": "lookup-flood", "pkg": "./", "test": "TestVerif_C10_LookupFlood", "quick": 1000, "thorough": 15000},
+        {"part": "sender-bytes", "pkg": "./internal/net/", "test": "TestVerif_C10_SenderBytes", "quick": 3000, "thorough": 15000},
+        {"part": "lookup-flood", "pkg": "./", "test": "TestVerif_C10_LookupFlood", "quick": 2000, "thorough": 15000},
     ],
 }
 
@@ -213,7 +214,7 @@ CHECKS["C11"] = {
                   "messageSenderImpl; each request carries a unique id that an honest responder echoes, so a mismatched reply is directly visible; per-stream histories give the serialization/reset clauses. Exploration.",
     "level_note": "Virtual time fixes the order of every reply, timeout and cancellation; three interleaving points inside the per-peer sender bookkeeping are owned through the verif hook (drawn pauses), others below the level of blocking operations are not controlled; the in-memory pipe (optionally with blocking writes) stands in for a libp2p stream.",
     "parts": [
-        {"part": "message-sender", "pkg": NETP, "test": "TestVerif_C11_MessageSender", "quick": 2000, "thorough": 30000},
+        {"part": "message-sender", "pkg": NETP, "test": "TestVerif_C11_MessageSender", "quick": 8000, "thorough": 30000},
         {"part": "message-sender-gofuzz", "pkg": NETP, "fuzz": "FuzzVerif_C11_MessageSender", "fuzz_seconds": 60, "quick": 0, "thorough": 0, "test": "FuzzVerif_C11_MessageSender"},
     ],
 }
@@ -226,7 +227,7 @@ CHECKS["C12"] = {
                   "membership is compared with the per-peer history in the simulation log (proof of an answer for every member, an admission on the strength of the probe alone only for a peer that advertises the protocol and passes the filter, no member whose latest interaction is a failure/protocol-gone), and every refresh channel must deliver exactly one value. Histories include passes of the low-peers repair and peers already connected at construction. Exploration.",
     "level_note": "Quiescent points = 3 min of virtual time after each event plus synctest.Wait; retention of healthy peers is not asserted (bucket replacement is legitimate); failures inside the window of a cancelled lookup are not counted as failures.",
     "parts": [
-        {"part": "routing-table", "pkg": ROOT, "test": "TestVerif_C12_RoutingTable", "quick": 1200, "thorough": 20000},
+        {"part": "routing-table", "pkg": ROOT, "test": "TestVerif_C12_RoutingTable", "quick": 4800, "thorough": 20000},
     ],
 }
 
@@ -238,7 +239,7 @@ CHECKS["C13"] = {
                   "streams reset, requests answered or not) and compared with the function of the option and the last event. Exploration: histories are sampled; the state space (4 options x 3 reachabilities) is covered many times over.",
     "level_note": "Requests and events are interleaved at quiescent points only (an event delivered at the very instant of a request is not asserted); the fake network's connection registry feeds the demotion's stream reset.",
     "parts": [
-        {"part": "modes", "pkg": ROOT, "test": "TestVerif_C13_Modes", "quick": 1500, "thorough": 20000},
+        {"part": "modes", "pkg": ROOT, "test": "TestVerif_C13_Modes", "quick": 6000, "thorough": 20000},
     ],
 }
 
@@ -251,10 +252,10 @@ CHECKS["C16"] = {
                   "generated referral graphs with failure patterns drive the real crawler against a reachability/exactly-once oracle; every operation is run on an empty table and with missing options. Exploration.",
     "level_note": "IP groups are /16 blocks of public IPv4 addresses by construction; the swap race needs the 'verif' hook (fullrt/verif_hook_on.go); the simulated sender stands in for the network.",
     "parts": [
-        {"part": "closest", "pkg": FRT, "test": "TestVerif_C16_Closest", "quick": 1500, "thorough": 25000},
-        {"part": "swap", "pkg": FRT, "test": "TestVerif_C16_Swap", "quick": 300, "thorough": 3000, "shards": 4},
+        {"part": "closest", "pkg": FRT, "test": "TestVerif_C16_Closest", "quick": 4500, "thorough": 25000},
+        {"part": "swap", "pkg": FRT, "test": "TestVerif_C16_Swap", "quick": 600, "thorough": 3000, "shards": 4},
         {"part": "empty", "pkg": FRT, "test": "TestVerif_C16_Empty", "quick": 300, "thorough": 3000},
-        {"part": "crawler", "pkg": "./crawler/", "test": "TestVerif_C16_Crawler", "quick": 1500, "thorough": 20000},
+        {"part": "crawler", "pkg": "./crawler/", "test": "TestVerif_C16_Crawler", "quick": 4500, "thorough": 20000},
     ],
 }
 
@@ -266,7 +267,7 @@ CHECKS["C15"] = {
                   "write RPCs (also when the WAN-side operation fails: newer local record, providers disabled), compares reads with the inner DHTs' own results, and checks every WAN request target, stored address and advertised address against the address classes. Exploration.",
     "level_note": "Address classes are public/private by construction (ambiguous classes such as CGNAT or DNS are not generated); seeds get a harness-made public connection address; both inner DHTs share one fake host as in production.",
     "parts": [
-        {"part": "dual", "pkg": "./dual/", "test": "TestVerif_C15_Dual", "quick": 1200, "thorough": 20000},
+        {"part": "dual", "pkg": "./dual/", "test": "TestVerif_C15_Dual", "quick": 3600, "thorough": 20000},
     ],
 }
 
@@ -278,14 +279,14 @@ CHECKS["C14"] = {
                   "Close returns, every Close call and every in-flight operation must return without panic, and nothing may be left after the wind-down; constructors are failed at injected points and must leave no goroutine or subscription. The buffered wrapper and the record stores are closed 1-3 times with overlapping calls while their worker / an operation is held at a gate; no Close call may have returned while it is held. Exploration.",
     "level_note": "Censuses are taken at quiescent points (synctest.Wait, which does not advance the clock): a goroutine that Close does not wait for but that ends without the clock advancing is not distinguished; Close instants are virtual instants, not arbitrary instructions.",
     "parts": [
-        {"part": "ipfsdht", "pkg": ROOT, "test": "TestVerif_C14_IpfsDHT", "quick": 1200, "thorough": 20000},
+        {"part": "ipfsdht", "pkg": ROOT, "test": "TestVerif_C14_IpfsDHT", "quick": 2400, "thorough": 20000},
         {"part": "constructors", "pkg": ROOT, "test": "TestVerif_C14_Constructors", "quick": 300, "thorough": 3000},
-        {"part": "fullrt", "pkg": "./fullrt/", "test": "TestVerif_C14_FullRT", "quick": 400, "thorough": 4000},
+        {"part": "fullrt", "pkg": "./fullrt/", "test": "TestVerif_C14_FullRT", "quick": 800, "thorough": 4000},
         {"part": "buffered", "pkg": "./provider/buffered/", "test": "TestVerif_C14_Buffered", "quick": 600, "thorough": 10000},
         {"part": "records", "pkg": "./records/", "test": "TestVerif_C14_Records", "quick": 400, "thorough": 6000},
         {"part": "keystore", "pkg": "./provider/keystore/", "test": "TestVerif_C14_Keystore", "quick": 400, "thorough": 6000},
         {"part": "sweeping-provider", "pkg": "./provider/", "test": "TestVerif_C14_SweepingProvider", "quick": 60, "thorough": 1600},
-        {"part": "dual", "pkg": "./dual/", "test": "TestVerif_C14_Dual", "quick": 300, "thorough": 3000},
+        {"part": "dual", "pkg": "./dual/", "test": "TestVerif_C14_Dual", "quick": 600, "thorough": 3000},
     ],
 }
 
@@ -299,10 +300,10 @@ CHECKS["C17"] = {
     "level_note": "Three regimes are generated and reported separately (bucket = r; bucket > r; swarm < r); routers that return only 1-2 peers are outside the documented operating assumptions and not generated; closest-peers lookups cost 1-150 ms and failing lookups/sends 1 s of virtual time (never 0: a real clock cannot make 'now' coincide with a schedule slot to the nanosecond); "
                   "the provider's own random draws (prefix-length sampling) are not controlled: verdicts are stated so that they do not depend on them, except for the two listed findings, which are identified by their circumstances.",
     "parts": [
-        {"part": "sweep-mainstream", "pkg": PRV, "test": "TestVerif_C17_SweepA", "quick": 120, "thorough": 1500},
-        {"part": "sweep-bucket-gt-r", "pkg": PRV, "test": "TestVerif_C17_SweepB", "quick": 80, "thorough": 1000},
-        {"part": "sweep-tiny-swarm", "pkg": PRV, "test": "TestVerif_C17_SweepC", "quick": 80, "thorough": 1000},
-        {"part": "buffered", "pkg": "./provider/buffered/", "test": "TestVerif_C17_Buffered", "quick": 1500, "thorough": 20000},
+        {"part": "sweep-mainstream", "pkg": PRV, "test": "TestVerif_C17_SweepA", "quick": 360, "thorough": 1500},
+        {"part": "sweep-bucket-gt-r", "pkg": PRV, "test": "TestVerif_C17_SweepB", "quick": 240, "thorough": 1000},
+        {"part": "sweep-tiny-swarm", "pkg": PRV, "test": "TestVerif_C17_SweepC", "quick": 240, "thorough": 1000},
+        {"part": "buffered", "pkg": "./provider/buffered/", "test": "TestVerif_C17_Buffered", "quick": 4500, "thorough": 20000},
     ],
 }
 
